@@ -205,8 +205,13 @@ pub fn check_ns_pop_iter(raw: &[u8], shape: usize, do_iter: bool, do_pop: bool) 
     let mut r = Raw::new(raw);
     let (m, nesting) = build(&mut r, shape);
     require!(valid(&m, nesting) && nesting >= 1);
-    // the listing is decided for <=2 user bindings (its nested loops over 3 did not finish in 15 min)
-    require!(!do_iter || m.n <= 2);
+    // the listing is decided for exactly 2 user bindings of the shape (symbolic count or 3 bindings did
+    // not finish in 15 min)
+    let mut m = m;
+    if do_iter {
+        m.n = 2;
+        require!(valid(&m, nesting));
+    }
     let mut res = real(&m, nesting);
     if do_iter {
 
